@@ -1,4 +1,4 @@
-"""generator of M-Core-3 functions (descriptors: lean/LlirModel/Drv/Core3Ops.lean): parameters, named / numbered blocks, instructions of the 30 rows
+"""generator of M-Core-3 functions (descriptors: lean/LlirModel/Drv/Core3Ops.lean): parameters, named / numbered blocks, instructions of the 71 rows
 over locals (also forward references) and Core2 constants, LLVM numbering of the unnamed values; plus text-level mutants for the parser stream."""
 import re
 from . import gens
@@ -6,6 +6,13 @@ from . import gens
 BINOPS = ["add", "sub", "mul", "udiv", "sdiv", "urem", "srem", "shl", "lshr", "ashr", "and", "or", "xor"]
 INT_TYS = ["i1", "i8", "i32", "i64", "i33", "V4(i32)", "V2(i64)", "S2(i8)"]
 PTR_TYS = ["p0(i32)", "p0(i8)", "p1(i64)", "p0(p0(i8))", "p0(V4(i32))"]
+FLOAT_TYS = ["f1", "f2", "f0", "V4(f1)", "S2(f2)"]
+VEC_TYS = ["V4(i32)", "V2(i64)", "S2(i8)", "V4(f1)", "S2(f2)", "V2(p0(i8))"]
+
+
+def vec_parts(t):
+    m = re.fullmatch(r"([VS])(\d+)\((.*)\)", t)
+    return m.group(1), int(m.group(2)), m.group(3)
 
 
 def hexs(b):
@@ -82,8 +89,28 @@ def gen_func(rng, max_blocks=4):
                 insts.append({"row": r, "ty": a, "to": b, "res": fresh_ident(), "has": True})
             elif k < 0.985:
                 insts.append({"row": 43, "ty": rng.choice(INT_TYS + PTR_TYS), "res": fresh_ident(), "has": True, "n": rng.randint(1, 3)})
-            else:
+            elif k < 0.99:
                 insts.append({"row": 44, "ty": rng.choice(INT_TYS + PTR_TYS), "res": fresh_ident(), "has": True})
+            else:
+                insts.append({"row": 44, "ty": rng.choice(FLOAT_TYS), "res": fresh_ident(), "has": True})
+        # floating-point arithmetic and comparisons, vector element instructions, alloca (rows 45-70)
+        for _ in range(rng.choice([0, 0, 1, 2])):
+            k = rng.random()
+            if k < 0.12:
+                insts.append({"row": 45, "ty": rng.choice(FLOAT_TYS), "res": fresh_ident(), "has": True})
+            elif k < 0.4:
+                insts.append({"row": 46 + rng.randrange(5), "ty": rng.choice(FLOAT_TYS), "res": fresh_ident(), "has": True})
+            elif k < 0.6:
+                insts.append({"row": 51 + rng.randrange(16), "ty": rng.choice(FLOAT_TYS), "res": fresh_ident(), "has": True})
+            elif k < 0.7:
+                insts.append({"row": 67, "ty": rng.choice(VEC_TYS), "ity": rng.choice(["i32", "i64", "i8"]), "res": fresh_ident(), "has": True})
+            elif k < 0.8:
+                insts.append({"row": 68, "ty": rng.choice(VEC_TYS), "ity": rng.choice(["i32", "i64"]), "res": fresh_ident(), "has": True})
+            elif k < 0.9:
+                insts.append({"row": 69, "ty": rng.choice(VEC_TYS), "m": rng.choice([1, 2, 4, 8]), "res": fresh_ident(), "has": True})
+            else:
+                insts.append({"row": 70, "ty": rng.choice(INT_TYS + PTR_TYS + FLOAT_TYS + ["a4(i8)", "s(i32,i8)"]), "res": fresh_ident(), "has": True})
+        rng.shuffle(insts)
         blocks.append({"label": fresh_ident(), "insts": insts})
     # result types
     def res_ty(i):
@@ -95,6 +122,13 @@ def gen_func(rng, max_blocks=4):
         if r == 23: return pointee(t)
         if r == 25 or r in (43, 44): return t
         if 30 <= r <= 42: return i["to"]
+        if 45 <= r <= 50 or r == 68: return t
+        if 51 <= r <= 66:
+            m = re.fullmatch(r"([VS])(\d+)\((.*)\)", t)
+            return "%s%s(i1)" % (m.group(1), m.group(2)) if m else "i1"
+        if r == 67: return vec_parts(t)[2]
+        if r == 69: return "%s%d(%s)" % (vec_parts(t)[0], i["m"], vec_parts(t)[2])
+        if r == 70: return "p0(%s)" % t
         return None
     # LLVM numbering of the unnamed values
     n = 0
@@ -140,8 +174,21 @@ def gen_func(rng, max_blocks=4):
                 args = "P%s=%s!T%s" % (t, operand(t), i["to"])
             elif r == 43:
                 args = "T%s!H%s" % (t, "&".join("%s~%s" % (operand(t), rng.choice(labels)) for _ in range(i["n"])))
-            elif r == 44:
+            elif r in (44, 45):
                 args = "P%s=%s" % (t, operand(t))
+            elif 46 <= r <= 66:
+                args = "P%s=%s!V%s" % (t, operand(t), operand(t))
+            elif r == 67:
+                args = "P%s=%s!P%s=%s" % (t, operand(t), i["ity"], operand(i["ity"]))
+            elif r == 68:
+                e = vec_parts(t)[2]
+                args = "P%s=%s!P%s=%s!P%s=%s" % (t, operand(t), e, operand(e), i["ity"], operand(i["ity"]))
+            elif r == 69:
+                mt = "%s%d(i32)" % (vec_parts(t)[0], i["m"])
+                args = "P%s=%s!P%s=%s!P%s=#%s" % (t, operand(t), t, operand(t), mt, rng.choice(["z", "u"]) if mt.startswith("S") or rng.random() < 0.4 else
+                                                  "V(%s)" % ",".join("i32=i%d" % rng.randrange(2 * vec_parts(t)[1]) for _ in range(i["m"])))
+            elif r == 70:
+                args = "T%s" % t
             else:
                 args = "Pi1=%s!P%s=%s!P%s=%s" % (operand("i1"), t, operand(t), t, operand(t))
             parts.append("%s:%d:%s" % (i["ident"], r, args))
@@ -202,6 +249,7 @@ def mutants(rng, text):
         out.append(("label-deleted", b"\n".join(lines[:k] + lines[k + 1:])))
     if body:
         k = rng.choice(body)
-        out.append(("extra-operand", with_line(k, lines[k] + b", i32 7")))
+        # (`alloca T, i32 7` is the element-count form of alloca, which M-Core-3 does not have: two extra operands there)
+        out.append(("extra-operand", with_line(k, lines[k] + (b", i32 7, i32 7" if b"= alloca " in lines[k] else b", i32 7"))))
         out.append(("comma-dropped", with_line(k, lines[k].replace(b", ", b" ", 1))))
     return out
